@@ -180,6 +180,37 @@ theorem groups_spec (keyOf : ρ → κ) (rows : List ρ) :
   unfold groupsOf
   exact firstSeen_emit_keys keyOf _ (by simp) rows
 
+/-- **Requests one at a time on one object** (`sequence_independent`).  `_group_keys` persists on a
+`GroupBy` object and is never reset; the value map is a local of each call.  For every frame and
+every finite sequence of calls (`aggregate` with any request lists — the wrappers included —, and
+`groups()`, in any order, repeats included) on one object, every result equals the result of that
+call alone on a fresh object, and after every call `_group_keys` holds exactly the distinct keys of
+the frame. -/
+theorem sequence_independent (keyOf : ρ → κ) (cell : ρ → String → Option Int) (rows : List ρ)
+    (ops : List Op) :
+    runS keyOf cell rows [] ops = ops.map fun op => (stepS keyOf cell rows [] op).2 := by
+  suffices h : ∀ st, (st = [] ∨ st = groupKeys keyOf rows) →
+      runS keyOf cell rows st ops = ops.map fun op => (stepS keyOf cell rows [] op).2 from
+    h [] (Or.inl rfl)
+  induction ops with
+  | nil => intro st _; rfl
+  | cons op ops ih =>
+    intro st hst
+    obtain ⟨h1, h2⟩ := stepS_state keyOf cell rows st hst op
+    simp only [runS, List.map_cons]
+    rw [h2, ih _ (Or.inr h1)]
+
+/-- The result of an `aggregate` call in a sequence is the partition-and-fold reference, and
+`groups()` at any point lists the distinct keys. -/
+theorem sequence_spec (keyOf : ρ → κ) (cell : ρ → String → Option Int) (rows : List ρ) (op : Op) :
+    (stepS keyOf cell rows [] op).2 =
+      match op with
+      | .aggregate reqs => .table (aggregate keyOf cell rows reqs)
+      | .groups => .keys (groupKeys keyOf rows) := by
+  cases op with
+  | aggregate reqs => rfl
+  | groups => exact congrArg Out.keys (groups_spec keyOf rows)
+
 /-- **Layout of a result row**: when the labels and the key column names are pairwise distinct, the
 header is the `FUNC(column)` labels in request order followed by the key columns, and every row is
 the aggregates followed by the key values. -/
@@ -242,6 +273,39 @@ theorem run_missing_key (fr : Frame) (keyCols : List String) (reqs : List Req)
   unfold run
   rw [hidx]
 
+/-- **Dict collapse.**  A Python dict built by successive assignments — the result row of
+group_by.py:149-153 is one — has every assigned name once, in order of first assignment, and holds
+under each name the value assigned last.  No distinctness assumption. -/
+theorem dict_collapse {β : Type} (kvs : List (String × β)) :
+    (dictOf kvs).map (·.1) = firstSeen (kvs.map (·.1))
+    ∧ ((dictOf kvs).map (·.1)).Nodup
+    ∧ ∀ k, dictGet (dictOf kvs) k = lastAssigned kvs k := by
+  refine ⟨dictOf_keys kvs, ?_, dictGet_dictOf kvs⟩
+  rw [dictOf_keys]
+  exact nodup_firstSeen _
+
+/-- **Layout with repeated names.**  For any request list and key columns — repeated identical
+requests, a key column named twice, a key column named like a label — the header is the labels
+followed by the key columns with every name kept at its first position only, and every cell of a
+result row is the value most recently assigned under its column's name (labels in request order,
+then key columns). -/
+theorem layout_general (keyCols : List String) (reqs : List Req) (k : List PyVal) (aggs : List Agg) :
+    header keyCols reqs = firstSeen (reqs.map label ++ keyCols)
+    ∧ resultRow keyCols reqs k aggs =
+        (firstSeen (((reqs.zip aggs).map fun qa => label qa.1) ++ (keyCols.zip k).map (·.1))).map fun name =>
+          (lastAssigned (((reqs.zip aggs).map fun qa => (label qa.1, qa.2.toPyVal)) ++ keyCols.zip k) name).getD .none := by
+  constructor
+  · unfold header
+    rw [dictOf_keys]
+    simp [List.map_append, List.map_map, Function.comp_def]
+  · unfold resultRow
+    have hk := dictOf_keys (((reqs.zip aggs).map fun qa => (label qa.1, qa.2.toPyVal)) ++ keyCols.zip k)
+    rw [map_snd_eq_map_get _ (by rw [hk]; exact nodup_firstSeen _) PyVal.none, hk]
+    simp only [List.map_append, List.map_map, Function.comp_def]
+    apply List.map_congr_left
+    intro name _
+    rw [dictGet_dictOf]
+
 /-- Non-vacuity: colliding keys -1 / -2 stay apart, a column requested twice is counted once, an
 all-null group keeps its row, and the reverse frame gives the same entries. -/
 example :
@@ -262,5 +326,11 @@ example :
       = some (["AVG(v)", "COUNT(*)", "k", "j"],
              [[.list [.str "avg", .int 10, .int 2], .int 2, .int 0, .str "a"],
               [.none, .int 1, .int 2305843009213693951, .str "a"]]) := by decide
+
+/-- Non-vacuity of the collapse: a request repeated verbatim and a key column named twice. -/
+example :
+    (run { columns := ["k", "v"], rows := [[.int (-1), .int 4], [.int (-2), .int 1], [.int (-1), .int 6]] }
+        ["k", "k"] [(.sum, "v"), (.max, "v"), (.sum, "v")]).toOption
+      = some (["SUM(v)", "MAX(v)", "k"], [[.int 10, .int 6, .int (-1)], [.int 1, .int 1, .int (-2)]]) := by decide
 
 end C12
